@@ -112,6 +112,9 @@ var fmPath = regexp.MustCompile(`^[a-z]+([.][a-z]+){0,2}$`)
 
 const sentinel = "☃sentinel:"
 
+// int32 fields are mapped to sentinelInt32 .. sentinelInt32+7
+const sentinelInt32 = 424200
+
 // reaches reports whether from can reach target through message-typed fields.
 func reaches(from, target protoreflect.MessageDescriptor, seen map[protoreflect.FullName]bool) bool {
 	if from.FullName() == target.FullName() {
@@ -241,12 +244,24 @@ func c18Options(mask int) rapidproto.GeneratorOptions {
 		o = o.WithInterfaceHint("verif.opts.Animal", dog.New())
 	}
 	if mask&8 != 0 {
-		o.FieldMaps = []rapidproto.FieldMapper{func(t *rapid.T, fd protoreflect.FieldDescriptor, name string) (protoreflect.Value, bool) {
-			if fd.Kind() != protoreflect.StringKind {
+		// three mappers: the first declines everything, the second claims int32
+		// fields, the third strings - every one of them must be consulted
+		o.FieldMaps = []rapidproto.FieldMapper{
+			func(*rapid.T, protoreflect.FieldDescriptor, string) (protoreflect.Value, bool) {
 				return protoreflect.Value{}, false
-			}
-			return protoreflect.ValueOfString(sentinel + rapid.StringMatching("[a-z]{0,3}").Draw(t, name)), true
-		}}
+			},
+			func(t *rapid.T, fd protoreflect.FieldDescriptor, name string) (protoreflect.Value, bool) {
+				if fd.Kind() != protoreflect.Int32Kind {
+					return protoreflect.Value{}, false
+				}
+				return protoreflect.ValueOfInt32(sentinelInt32 + int32(rapid.IntRange(0, 7).Draw(t, name))), true
+			},
+			func(t *rapid.T, fd protoreflect.FieldDescriptor, name string) (protoreflect.Value, bool) {
+				if fd.Kind() != protoreflect.StringKind {
+					return protoreflect.Value{}, false
+				}
+				return protoreflect.ValueOfString(sentinel + rapid.StringMatching("[a-z]{0,3}").Draw(t, name)), true
+			}}
 	}
 	return o
 }
@@ -443,6 +458,10 @@ func c18Walk(m protoreflect.Message, opts rapidproto.GeneratorOptions, mask, dep
 				}
 				if mask&8 != 0 && !strings.HasPrefix(v.String(), sentinel) {
 					return fmt.Errorf("%s: field mapper not honoured: string %q was not produced by the mapper", where, trunc(v.String(), 40))
+				}
+			case protoreflect.Int32Kind:
+				if x := int32(v.Int()); mask&8 != 0 && (x < sentinelInt32 || x > sentinelInt32+7) {
+					return fmt.Errorf("%s: field mapper not honoured: int32 value %d was not produced by the second mapper of the list", where, x)
 				}
 			case protoreflect.EnumKind:
 				if sfd.Enum().Values().ByNumber(v.Enum()) == nil {
